@@ -7,7 +7,9 @@ bits, type) plus the child objects.  "raises" = `false` / `none`: the property n
 exception classes.  The model mirrors the code AFTER the fix commits of fix/mk:
   * 56bdc07  check_account_proof compares the supplied state's `.hash` (F12),
   * 3b51ac3  check_proof also requires the proof cell to be exactly `03 ++ hash ++ depth(child,0)`, one ref,
-  * 83e0e94  check_account_proof / check_shard_proof run check_proof on both roots.
+  * 83e0e94  check_account_proof / check_shard_proof run check_proof on both roots,
+  * 67bd38d  check_block_header_proof(.., True) requires root[2] to be a Merkle update cell whose stored new hash
+             (data[33:65]) is the returned `root[2][1].get_hash(0)`.
 
 What is NOT mirrored statement by statement (abstracted to exactly the facts the checks use):
   * `Cell.from_boc(proof)` — the argument `roots` is its result (BoC decoding is C03/C05's business);
@@ -69,9 +71,11 @@ def checkBlockHeaderProof (root : PCell) (blockHash : Bytes) : Bool :=
 /-- `check_block_header_proof(root_cell, block_hash, True)`: the returned `root_cell[2][1].get_hash(0)`; `none` = raises -/
 def checkBlockHeaderProofState (root : PCell) (blockHash : Bytes) : Option Bytes :=
   if checkBlockHeaderProof root blockHash then do
-    let r2 ← root.refs[2]?
-    let r21 ← r2.refs[1]?
-    r21.info.getHash 0
+    let su ← root.refs[2]?                                  -- state_update = root_cell[2]
+    let r21 ← su.refs[1]?
+    let sh ← r21.info.getHash 0
+    -- 'state update does not commit to the state hash' (fix 67bd38d)
+    if su.info.kind != kMerkleUpdate || pySlice su.data 33 65 != sh then none else some sh
   else none
 
 /-- `check_account_proof(proof, shrd_blk, address, account_state_root)`.
